@@ -116,11 +116,13 @@ def model_line(job, pair, tb, mode):
         m64, m128 = tb.get("d64_max_precision") or 18, tb.get("d128_max_precision") or 38
         if job.op in ("add", "sub"):
             st = "n" if tb.get("dec_%s_native" % job.op, 1) == 1 else "c"
-            return "decadd %s %s %d %d %d %d %d %d %s %s" % (st, mode, k, 1 if job.op == "sub" else 0, m64, m128,
-                                                            1 if tb.get("int_to_decimal_pow_i32") == 1 else 0,
-                                                            0 if tb.get("decimal_to_decimal_validates") == 0 else 1, dec_opnd(job.ta, pair[0]), dec_opnd(job.tb, pair[1]))
+            return "decadd %s %s %d %d %d %d %d %d %d %s %s" % (st, mode, k, 1 if job.op == "sub" else 0, m64, m128,
+                                                               1 if tb.get("int_to_decimal_pow_i32") == 1 else 0,
+                                                               0 if tb.get("decimal_to_decimal_validates") == 0 else 1,
+                                                               0 if tb.get("dec_%s_validates" % job.op) == 0 else 1,
+                                                               dec_opnd(job.ta, pair[0]), dec_opnd(job.tb, pair[1]))
         st = "n" if tb.get("dec_mul_native", 1) == 1 else "c"
-        return "decmul %s %s %d %d %d %s %s" % (st, mode, k, m64, m128, dec_opnd(job.ta, pair[0]), dec_opnd(job.tb, pair[1]))
+        return "decmul %s %s %d %d %d %d %s %s" % (st, mode, k, m64, m128, 0 if tb.get("dec_mul_validates") == 0 else 1, dec_opnd(job.ta, pair[0]), dec_opnd(job.tb, pair[1]))
     raise ValueError(job.kind)
 
 
@@ -190,18 +192,13 @@ def finding_id(job, pair, m, real, tb):
         if job.op in ("add", "sub") and mixed and m["ty"] and m["ty"][1] >= 10 and tb.get("int_to_decimal_pow_i32") == 1:
             return "int-to-decimal-scale-pow-i32"
         if m.get("clamped") and job.op in ("add", "sub"):
-            # narrow shape (C12_dec_addsub_exact_or_error_any_precision): the precision was clamped AND
-            #  (a) a value with more digits than the announced type (the add is not validated), or
-            #  (b) an operand cast to the common type fails although the exact result is representable, or
-            #  (c) Decimal128: the add overflows i128 (panic / wrapped value); the exact result is unrepresentable
-            p_ = m["ty"][0]
-            if real.startswith("ok:") and m["spec"] == "err" and abs(int(real[3:])) >= 10 ** p_:
-                return "dec-addsub-clamped-precision"
+            # the one listed shape (C12_dec_addsub_meets_spec_or_cast_error): the precision was clamped AND an operand
+            # cast to the common type fails although the exact result is representable
             if real == "err" and m["spec"].startswith("ok:"):
-                return "dec-addsub-clamped-precision"
-            if m["spec"] == "err" and dec_kind(job.ta, job.tb) == 128 and (real == "panic" or real.startswith("ok:")):
-                return "dec-addsub-clamped-precision"
-            return None
+                return "dec-addsub-clamped-operand-cast-error"
+            # repaired shapes (no longer listed => a violation if they come back): a value with too many digits,
+            # a panic / wrapped value of the unchecked add
+            return "dec-addsub-clamped-precision"
         if m.get("clamped") and job.op == "mul":
             return "dec-mul-clamped-precision"
         return None
@@ -339,6 +336,8 @@ def run_pair_jobs(jobs, profile, gbin, gmodel, tb, rng, tier, stats):
         e = expr_sql(j, "a", "b")
         if j.exh is not None:
             lo, hi = (-128, 127) if INT_TYPES[j.ta][1] == "s" else (0, 255)
+            if j.op == "rem" and lo < 0 and j.model[j.pairs.index(("I-128", "I-1"))]["impl"].startswith("ok"):
+                j.exh = "b <> 0"            # rem_checked: MIN % -1 = 0 is an ordinary in-range pair
             sqlt = gen.tinfo(j.ta)[0]
             setup = ["create temp table p as select cast(x as %s) as a, cast(y as %s) as b from generate_series(%d,%d) g(x), generate_series(%d,%d) h(y)"
                      % (sqlt, sqlt, lo, hi, lo, hi)]
@@ -432,8 +431,16 @@ def run_pair_jobs(jobs, profile, gbin, gmodel, tb, rng, tier, stats):
                     ii = [i for i in idx if j.pairs[i] == key]
                     if ii:
                         judge(j, ii[0], "ok:" + row[2][1:], [], c["stmts"])
-            # a failing statement is consistent with the model (the first evaluated pair fails); the individual
-            # statements decide each pair
+            elif o[0] != "err":
+                # every pair of the batch is unrepresentable: the statement has to FAIL WITH AN ERROR (not panic / hang)
+                i0 = idx[0]
+                m0 = j.model[i0]
+                if m0["impl"] == o[0] and finding_id(j, j.pairs[i0], m0, o[0], tb):
+                    note_known(finding_id(j, j.pairs[i0], m0, o[0], tb), j, j.pairs[i0], m0, o[0], replay)
+                else:
+                    viol.append({"kind": "arith-batch-not-error", "profile": profile, "types": [j.ta, j.tb], "op": j.op,
+                                 "outcome": list(o)[:2], "stmts": replay})
+            # a failing statement only shows that the first evaluated pair fails; the individual statements decide each pair
         else:  # safe group
             if o[0] != "ok":
                 # the model said every pair is fine but the statement failed: find the culprit(s) individually
@@ -709,8 +716,10 @@ def run(ctx):
     tier = ctx["tier"]
     out = {"violations": [], "known": [], "assumptions": []}
     tb = tables_arith.regenerate()
-    bins = {"dev": common.build_harness(profile="dev", bin="gverif")[0],
-            "relfast": common.build_harness(profile="relfast", bin="gverif")[0]}
+    # the release-like profile is a guard that debug and release agree (no more profile-dependent behaviour since the
+    # operators are checked): thorough tier only
+    profiles = ("dev",) if tier == "quick" else ("dev", "relfast")
+    bins = {pf: common.build_harness(profile=pf, bin="gverif")[0] for pf in profiles}
     # --- proof stage
     pr = common.coq_props(PROPS)
     mine = [f for f in common.coq_sources() if any(f.endswith(x) for x in
@@ -726,7 +735,7 @@ def run(ctx):
     stats = {"evaluations": 0, "distinct": set(), "model_unfaithful": [], "batch_statements": 0}
     viol, known = [], {}
     per_profile = {}
-    for profile in ("dev", "relfast"):
+    for profile in profiles:
         prng = common.Rng(ctx["seed"] * 7919 + (1 if profile == "dev" else 2))
         jobs = int_jobs(prng, tier, profile) + dec_jobs(prng, tier, profile)
         v1, k1 = run_pair_jobs(jobs, profile, bins[profile], gmodel, tb, prng, tier, stats)
